@@ -361,8 +361,16 @@ PokSwaps == {<<"phi", "nu">>, <<"nu", "heps">>, <<"gamma", "kappa">>, <<"X", "g2
 ReqSwaps == {<<"d", "f">>, <<"a", "b">>, <<"f", "a">>, <<"d", "d">>, <<"b", "d">>, <<"s", "cm">>, <<"g", "g0">>, <<"h", "u">>, <<"cm", "g">>}
 SwapName(pr) == pr[1] \o "~" \o pr[2]
 
+\* Party identifiers and evaluation points.  c.ids is the party list in the (sorted) order handed to TPS.Init and Prover.Init, c.S lists
+\* the signers by IDENTIFIER.  The key generation deals the share of the party at position j of that list at the evaluation point j, the
+\* threshold key is assembled from those points, and Prover.Init builds the table identifier -> position (prover.go): everywhere below
+\* S is the list of the signers' RANKS in c.ids, which is what the code looks up for the signer's key and for the Lagrange
+\* coefficients.  Strict negation (field neg of a genuine case): the prover uses the identifier ITSELF as evaluation point (the code
+\* before repair 0454ff0); that variant is accepted exactly when the identifiers are 1..n.
 PsExpect(cs, c) ==
-  LET n == c.n  t == c.t  L == c.L  S == c.S  nn == c.L + 1
+  LET n == c.n  t == c.t  L == c.L  nn == c.L + 1
+      Sid == c.S
+      S == V([q \in 1..Len(Sid) |-> EvalPoint(c.ids, Sid[q])])
       m  == V([i \in 1..L |-> Alpha(cs, c.mv[i])])
       \* session 1, piecewise (TLC evaluates LET definitions lazily: only what the case needs is computed)
       sks1 == PsSKs(cs, 1, n, t, L)
@@ -386,7 +394,8 @@ PsExpect(cs, c) ==
          ELSE IF \E q \in 1..Len(S) : ~sg1[q].ok THEN Res("reject", "sign", sg1[CHOOSE q \in 1..Len(S) : ~sg1[q].ok].eq, FALSE)
          ELSE IF \E q \in 1..Len(S) : ~ub1[q].ok THEN Res("reject", "unblind", "UNBLIND", FALSE)
          ELSE IF LagrangePanics(S) THEN Res("reject", "aggregate", "panic", FALSE)
-         ELSE [ver(pok0, tpk1) EXCEPT !.changed = FALSE]
+         ELSE [ver(pok0, tpk1) EXCEPT !.changed = FALSE,
+                                      !.neg = AccS(PsVerify(cs, PsProofOf(cs, 1, tpk1, sec, wits0, Sid), tpk1) = "ok")]
     [] c.obj = "req" ->
          \* one field of the blinded signing request altered; observed: SignBlindSignature at signer S[who]
          LET req == PertRec(req0, c.field, c.i, c.j, c.kind, s2.bl.req)
@@ -523,6 +532,13 @@ Base(sch, n, t, L, ids, S, mv) == [sch |-> sch, n |-> n, t |-> t, L |-> L, ids |
 P(c0, obj, field, i, j, kind, who) == [c0 EXCEPT !.obj = obj, !.field = field, !.i = i, !.j = j, !.kind = kind, !.who = who]
 Iota(n) == [k \in 1..n |-> k]
 
+\* party identifier lists (sorted, as handed to Init): 1..n, non-contiguous, byte-boundary / large.  (None is a multiple of 1..n:
+\* Lagrange coefficients are invariant under scaling of the evaluation points.)
+AltIds(n) == [k \in 1..n |-> 3 * k + 2]
+BigIds(n) == CASE n = 2 -> <<256, 65535>> [] n = 3 -> <<2, 256, 65535>> [] OTHER -> <<2, 256, 257, 65535>>
+IdLists(n) == {V(Iota(n)), V(AltIds(n)), V(BigIds(n))}
+MapIds(ids, S) == V([q \in 1..Len(S) |-> ids[S[q]]])
+
 All == Kinds = "all"
 MvFor(L) == [i \in 1..L |-> IF i <= 2 THEN 1 ELSE 2]          \* equal entries included
 
@@ -535,18 +551,19 @@ PermsOf(S) == {V([i \in 1..Len(S) |-> S[f[i]]]) : f \in {g \in [1..Len(S) -> 1..
 Orders(S) == (IF All THEN PermsOf(S) ELSE {V(RevSeq(S))} \cup {V(RotSeq(S, k)) : k \in 1..(Len(S) - 1)}) \ {S}
 
 \* C08: every (n,t), every signer set of size >= t, every message vector (signers ascending) + every other signer order (one vector)
+\*      + the same signer sets and orders with the other party identifier lists (one vector)
 Cases08For(n, t, L) == {Base("ps", n, t, L, Iota(n), S, mv) : S \in SignerSets(n, t), mv \in Vectors(L)}
                        \cup UNION {{Base("ps", n, t, L, Iota(n), O, MvFor(L)) : O \in Orders(S)} : S \in SignerSets(n, t)}
+                       \cup {Base("ps", n, t, L, ids, MapIds(ids, S), MvFor(L)) :
+                               ids \in IdLists(n) \ {V(Iota(n))}, S \in WithOrders(SignerSets(n, t))}
 Cases08 == UNION {Cases08For(nt[1], nt[2], L) : nt \in NT, L \in 1..MaxL}
 
 \* C09 base cases.  BLS additionally with party identifiers that are not 1..n (the Verifier's party -> evaluation point table)
-AltIds(n) == [k \in 1..n |-> 3 * k + 2]
 \* (genuine cases in every other signer order are added; the catalogue is applied to the ascending ones only)
 WithOrders(T) == T \cup UNION {Orders(S) : S \in T}
-BlsBasesFor(n, t) == {Base("bls", n, t, 0, Iota(n), S, <<>>) : S \in WithOrders(SignerSets(n, t))}
-                     \cup {Base("bls", n, t, 0, AltIds(n), V([q \in 1..Len(S) |-> AltIds(n)[S[q]]]), <<>>) : S \in WithOrders(SignerSets(n, t))}
+BlsBasesFor(n, t) == {Base("bls", n, t, 0, ids, MapIds(ids, S), <<>>) : ids \in IdLists(n), S \in WithOrders(SignerSets(n, t))}
 BlsBases == UNION {BlsBasesFor(nt[1], nt[2]) : nt \in NT}
-PsBasesFor(n, t, L) == {Base("ps", n, t, L, Iota(n), S, MvFor(L)) : S \in WithOrders(SignerSets(n, t))}
+PsBasesFor(n, t, L) == {Base("ps", n, t, L, ids, MapIds(ids, S), MvFor(L)) : ids \in IdLists(n), S \in WithOrders(SignerSets(n, t))}
 PsBases == UNION {PsBasesFor(nt[1], nt[2], L) : nt \in NT, L \in CatL}
 
 PointKinds  == IF All THEN {"addgen", "double", "cross"} ELSE {"addgen", "cross"}
@@ -635,7 +652,20 @@ PsPerts(c0) ==
   \cup {P(c0, "objsign", "", 0, 0, "twice", 1), P(c0, "objverify", "", 0, 0, "twice", 0)}
   \cup (IF All \/ c0.S = Iota(c0.t) THEN FsAttacks(c0) ELSE {})
 
-Perts(c0) == IF c0.sch = "bls" THEN BlsPerts(c0) ELSE PsPerts(c0)
+\* PS with party identifiers other than 1..n: the entries that involve the identifier -> key / evaluation point mapping
+\* (signer-to-share assignment: the witness of party a presented as party b's; unblinding under another signer's key; fewer signers)
+PsIdPerts(c0) ==
+  LET k == Len(c0.S)
+      whos == IF All THEN 1..k ELSE {1}
+  IN {P(c0, "wassign", "", ij[1], ij[2], "swap", 0) : ij \in Pairs(k)}
+     \cup {P(c0, "wassign", "", 0, 0, "shift", 0)}
+     \cup {P(c0, "sig", "", wi[2], 0, "othersigner", wi[1]) : wi \in {x \in whos \X (1..k) : x[1] # x[2] /\ (All \/ x[2] = 2)}}
+     \cup {P(c0, "wit", "", 0, 0, "addgen", w) : w \in whos}
+     \cup {P(c0, "ppk", "X", 0, 0, "addgen", w) : w \in whos}
+     \cup {P(c0, "tpk", "X", 0, 0, "addgen", 0), P(c0, "pok", "hpeps", 0, 0, "addgen", 0), P(c0, "req", "cm", 0, 0, "addgen", 1)}
+     \cup Fewer(c0)
+
+Perts(c0) == IF c0.sch = "bls" THEN BlsPerts(c0) ELSE IF c0.ids = Iota(c0.n) THEN PsPerts(c0) ELSE PsIdPerts(c0)
 
 -----------------------------------------------------------------------------
 \* ------------------- delivery schedules of the key generation -------------------
@@ -695,7 +725,8 @@ Init08 == Pending(Cases08)
 Next08 == /\ ph = "todo" /\ ph' = "done" /\ c' = c
           /\ res' = <<Model(c)>>
           /\ PrintT(<<"CASE", ToJson(c)>>)
-Honest08 == ph = "done" => (res[1].v = "accept" /\ ~res[1].collide)
+\* ... and its strict negation "the identifier is the evaluation point" is accepted exactly when the identifiers are 1..n
+Honest08 == ph = "done" => (res[1].v = "accept" /\ ~res[1].collide /\ ((res[1].neg = "accept") <=> (c.ids = Iota(c.n))))
 
 \* C09: genuine cases are accepted; every catalogue entry gets its expected verdict
 Init09 == Pending(BlsBases \cup PsBases)
@@ -707,6 +738,7 @@ Next09 == \/ /\ ph = "todo" /\ ph' = "done" /\ c' = c
 Cat09 == /\ (ph = "done" /\ c.obj = "none") =>
             /\ res[1].v = "accept" /\ ~res[1].collide
             /\ c.sch = "bls" => (BlsDkgOK(1, 1, c.n, c.t) /\ BlsDkgOK(2, 1, c.n, c.t))
+            /\ c.sch = "ps" => ((res[1].neg = "accept") <=> (c.ids = Iota(c.n)))
          \* every attack on the Fiat-Shamir binding is rejected in the model (the oracle absorbs the component) and accepted in the
          \* strict-negation variant (the component is not absorbed): the attack really decides the binding
          /\ (ph = "done" /\ IsAttack(c)) => (res[1].v = "reject" /\ res[1].neg = "accept")
